@@ -32,31 +32,47 @@ from ref import c02space as S
 
 PROPERTY = "C02"
 LEVEL = "exploration"
-RULE = ("every tree of the stated families (D12: all trees of depth <= 2 over 7 leaves, 9 unary and 8 binary operators; "
-        "D3U: unary(depth-2 tree); D3L/D3R: binary(depth-2 tree, leaf) / binary(leaf, depth-2 tree)) x all 16 log-status "
-        "assignments x the first 3 of 8 fixed candidate points that the reference finds admissible (inside the domain, "
-        ">= 0.1 from kinks); distinct non-trivial case = (family, tree index, log assignment) of an accepted tree that "
-        "contains a variable and had at least one Jacobian row compared")
+RULE = ("every tree of the stated families over leaves {x, y[-1], z[+1], w[-2], p, 2, 0.5}, 9 unary and 8 binary operators "
+        "(D12: all 462 trees of depth <= 2; D3U: 4095 unary(depth-2 tree); thorough also D3L/D3R: 2 x 25480 "
+        "binary(depth-2 tree, leaf) / binary(leaf, depth-2 tree) and D3V: 215168 binary(t1, t2) with t1, t2 depth-2 trees over "
+        "variable leaves) x all 16 log-status assignments of (x, y, z, w) x the first 3 of 8 fixed candidate points that the "
+        "reference finds admissible (inside the domain, >= 0.1 from kinks, positive for log-variables); trees are packed 24 "
+        "(D3V: 48) per generated model, a model that raises is bisected down to single trees (a single tree that raises is "
+        "'rejected'); distinct non-trivial case = (family, tree index, log assignment) of a tree that contains a variable and "
+        "was accepted by systemize(), i.e. had its Jacobian rows compared")
 MANIFEST_ENTRY = dict(level="exploration", design="DESIGN.md section 4 / C02",
     technique="exhaustive enumeration of expression trees x log-status assignments x reference-chosen evaluation points; "
               "systemize / steady-evaluator / stacked-time Jacobians compared entry by entry with textbook forward-mode "
-              "derivatives that are self-checked against Richardson differences",
-    text="For every tree of depth <= 2 and every unary(depth-2) tree (quick), plus every binary(depth-2, leaf) and "
-         "binary(leaf, depth-2) tree (thorough), over leaves {x, y[-1], z[+1], w[-2], p, 2, 0.5} and operators {+ - * / ^ "
-         "unary-, log exp sqrt logistic abs normal_cdf normal_pdf maximum minimum, user f(.) g(.,.)}, under all 16 "
-         "log-status assignments and at up to 3 admissible points with non-zero steady changes: every entry of A, B, D, F, "
-         "G, J from systemize(), of the flat and non-flat steady Jacobians and of the stacked-time Jacobian (with and "
-         "without the first-order terminal condition) equals the true partial derivative (w.r.t. the logarithm for "
-         "log-variables) in the row of the equation and the column of the occurrence and is zero elsewhere, or the tree "
-         "is rejected by an exception.",
-    note="Trusted: ref/expr.py + ref/c02space.py (plain math, Richardson self-check on every row). Not covered: depth-3 "
-         "trees with two composite arguments, evaluation points off the 8-point table, more than one shift per variable "
-         "inside a tree, C/H constant vectors (not in the statement).")
+              "derivatives that are self-checked against Richardson differences on every row",
+    text="For every tree of depth <= 2 and every unary(depth-2) tree (quick), plus every binary(depth-2, leaf), "
+         "binary(leaf, depth-2) tree and every binary(t1, t2) of depth-2 trees over variable leaves (thorough), over leaves "
+         "{x, y[-1], z[+1], w[-2], p, 2, 0.5} and operators {+ - * / ^ unary-, log exp sqrt logistic abs normal_cdf normal_pdf "
+         "maximum minimum, user f(.) g(.,.)}, under all 16 log-status assignments and at up to 3 admissible points with "
+         "non-zero steady changes: every entry of A, B, D, F, G, J from systemize() equals the true partial derivative "
+         "(w.r.t. the logarithm for log-variables) in the row of the equation and the column of the occurrence and is zero "
+         "elsewhere, or the tree is rejected by an exception. The same packs go through the flat and non-flat steady "
+         "evaluators (eval_func = reference residuals at t and t+1, eval_jacob = reference derivatives w.r.t. (log-)levels "
+         "and changes) and the stacked-time evaluator over 3 periods with time-varying data (analytic Jacobian with "
+         "terminal='data'; Richardson difference of eval_func for the rows that read the first-order terminal value): all "
+         "16 assignments for D12 (quick) and D12/D3U/D3L/D3R (thorough), 4 assignments for D3U in quick, systemize only for D3V.",
+    note="Trusted: ref/expr.py + ref/c02space.py (plain math; two independent rule sets and a Richardson difference must "
+         "agree on every row before it is used). Two genuine defects are recorded in known_findings.d/c02.json (non-flat "
+         "steady Jacobian rows for t+k; maximum with a non-constant second argument). Not covered: depth-3 trees with a "
+         "composite argument that contains p or a number on both sides, points off the 8-point table, more than one "
+         "shift per variable inside a tree, the C/H vectors and the dynamic-identity rows (not in the statement).")
 ASSUMPTIONS = [
     "evaluation points come from a fixed table of 8 candidates (rotated by the seed); derivatives at other points are not examined",
     "an occurrence that is both an element of x(t) and of x(t-1) (e.g. w[-1]) may be reported in A or in B, not in both",
     "user context functions are differentiated by finite differences in irispie: compared at relative 1e-6 instead of 1e-9",
-    "the rows of dynamic identities appended to A and B are not examined here (C01)",
+    "the rows of dynamic identities appended to A and B, and the vectors C and H, are not examined here (not in the statement)",
+    "steady and stacked-time evaluators are built once per model and keep the parameter value of the pack's first point; the other "
+    "points supply the variable values (admissibility re-checked by the reference)",
+    "trees of shapes that were always rejected when probed (abs/normal_cdf/normal_pdf/minimum of a non-number, number^variable, "
+    "maximum(number, variable)) are run one per model under every log assignment of their own variables (D3V: under the "
+    "all-non-log assignment) and under all 16 only if one of those is accepted",
+    "rows of the stacked-time Jacobian that read the first-order terminal value are compared with a Richardson difference of "
+    "irispie's own eval_func (itself compared with the reference residuals), column by column for x, y, z, w and along one "
+    "weighted direction per period for the v_k columns",
 ]
 
 PACK = 24
@@ -103,7 +119,8 @@ def _c(c):
 CLOSING = (
     ("x", ("+", ("+", ("*", _c(0.8), _v("x", -1)), _c(0.3)), ("*", _v("sx"), _v("y")))),
     ("y", ("+", ("+", ("*", _c(0.5), _v("y", -1)), _c(0.4)), ("*", ("-", ("fn", "exp", _v("sy")), _c(1)), _v("x", -1)))),
-    ("z", ("+", ("+", ("*", _c(0.3), _v("z", 1)), _c(0.7)), _v("sz"))),
+    ("z", ("+", ("+", ("+", ("+", ("*", _c(0.3), _v("z", 1)), ("*", _c(0.25), _v("z", -1))), ("*", _c(0.15), _v("x", -1))),
+                 _c(0.4)), _v("sz"))),
     ("w", ("+", ("+", ("+", ("*", _c(0.6), _v("w", -1)), ("*", _c(0.2), _v("w", -2))), _c(0.1)), ("*", _v("sw"), _v("z")))),
 )
 TSHOCKS = ("sx", "sy", "sz", "sw")
@@ -990,8 +1007,15 @@ def shard_trees(item, res, ctx):
 
 
 SOME_LOGS = ("0000", "1111", "0101", "1010")
-FLOOR_STAGE = {"quick": {"a": 20000, "b_nonflat": 7000, "c_data": 7000, "c_first_order": 7000, "b_flat": 7000},
-               "thorough": {"a": 200000, "b_nonflat": 100000, "c_data": 100000, "c_first_order": 100000, "b_flat": 100000}}
+# vacuity floors: about half of what the unchanged tree measures (seed 0)
+FLOORS = {
+    "quick": dict(nontrivial=15000, entries_a=300000, entries_b=5000000, entries_c=4000000, rows_terminal_fd=2500,
+                  stage_a=21000, stage_deep=7500,
+                  ops={"+": 2800, "-": 2700, "*": 2800, "/": 2800, "^const": 1100, "log": 3100, "exp": 3300, "sqrt": 3100}),
+    "thorough": dict(nontrivial=1200000, entries_a=17000000, entries_b=190000000, entries_c=160000000, rows_terminal_fd=120000,
+                     stage_a=1250000, stage_deep=290000,
+                     ops={"+": 400000, "-": 390000, "*": 400000, "/": 400000, "^const": 26000, "log": 66000, "exp": 66000, "sqrt": 66000}),
+}
 
 
 def plan_for(ctx):
@@ -1019,17 +1043,17 @@ def run(ctx, total, info):
     info["rejected_by_implementation"] = {k.split(":", 1)[1]: v for k, v in sorted(c.items()) if k.startswith("rejected_with:")}
     info["accepted"] = {k.split(":", 1)[1]: v for k, v in sorted(c.items()) if k.startswith("accepted_with:")}
     info["exhaustive"] = True
-    q = ctx.quick
-    floors = {"nontrivial_tree_x_logs": (len(total.nontrivial), 15000 if q else 150000),
-              "entries_systemize": (c.get("entries_a", 0), 150000 if q else 1500000),
-              "entries_steady": (c.get("entries_b", 0), 1000000 if q else 10000000),
-              "entries_stacked": (c.get("entries_c", 0), 1000000 if q else 10000000),
-              "rows_terminal_fd": (c.get("rows_terminal_fd", 0), 1000 if q else 10000)}
-    for op in ("+", "-", "*", "/", "^const", "log", "exp", "sqrt"):
-        floors["accepted_with:" + op] = (c.get("accepted_with:" + op, 0), 500 if q else 5000)
+    fl = FLOORS[ctx.tier]
+    floors = {"nontrivial_tree_x_logs": (len(total.nontrivial), fl["nontrivial"]),
+              "entries_systemize": (c.get("entries_a", 0), fl["entries_a"]),
+              "entries_steady": (c.get("entries_b", 0), fl["entries_b"]),
+              "entries_stacked": (c.get("entries_c", 0), fl["entries_c"]),
+              "rows_terminal_fd": (c.get("rows_terminal_fd", 0), fl["rows_terminal_fd"])}
+    for op, v in fl["ops"].items():
+        floors["accepted_with:" + op] = (c.get("accepted_with:" + op, 0), v)
     for st in STAGES:
         k = "accepted_trees:" + STAGE_NAMES[st]
-        floors[k] = (c.get(k, 0), FLOOR_STAGE[ctx.tier][st])
+        floors[k] = (c.get(k, 0), fl["stage_a"] if st == "a" else fl["stage_deep"])
     info["floors"] = floors
 
 
